@@ -681,7 +681,7 @@ def _parse_file(tree, menv):
             raise TranslateError("parse_file: the loop is not `for i, line in enumerate(lines): [skip blank] append(parse_line(..))`")
         target, it, facts, elt, acc = c
         init = entry[0].binds.get(acc)
-        if not (isinstance(init, ast.List) and not init.elts):
+        if init is None or not _const_is(init, env, []):
             raise TranslateError("parse_file: the result list does not start empty")
         post = Paths()
         post.run(fn.body[fn.body.index(loop) + 1:], [State((), {})])
